@@ -106,3 +106,9 @@ MUTANTS = [
     dict(name="double_key_hash_raw_bits", file=D, **{"from": "OrderedFloat(self.0).hash(state)", "to": "self.0.to_bits().hash(state)"},
          expect=["C14.K.double_key.laws"]),
 ]
+
+BENIGN = [
+    dict(name="vec_eq_index_renamed", file=P, **{"from": "        for i in 0..self.len() {\n            if !self[i].eq(&other[i]) {", "to": "        for idx in 0..self.len() {\n            if !self[idx].eq(&other[idx]) {"}),
+    dict(name="vec_cmp_local_renamed", file=P, **{"from": "        let l = usize::min(self.len(), other.len());\n\n        let lhs = &self[..l];\n        let rhs = &other[..l];", "to": "        let l = usize::min(other.len(), self.len());\n\n        let lhs = &self[..l];\n        let rhs = &other[..l];"}),
+    dict(name="option_eq_arms_reordered", file=P, **{"from": "            (Some(a), Some(b)) => a.eq(b),\n            (Some(_), None) | (None, Some(_)) => false,\n            (None, None) => true,", "to": "            (None, None) => true,\n            (Some(a), Some(b)) => a.eq(b),\n            (Some(_), None) | (None, Some(_)) => false,"}),
+]
